@@ -91,7 +91,13 @@ def failTag (c : Case) (ans : Option (Str × Str)) (v : Judgement) : String :=
       -- bracket expression with a port, several colons), so that key is compared with its port in front
       let unsplit := fun (k : Str) => k.contains ':' && (splitHostPort k).isNone
       (match ans with
-       | some a => if unsplit a.1 || unsplit b.1 then "shorter-host-suffix-won-port-not-split" else "shorter-host-suffix-won"
+       | some a =>
+         -- recorded finding: the sort compares the keys as written while they are matched (and judged here)
+         -- with the default port removed: `*:80` is `*` on a plain connection and then less specific than `*:443`
+         let stripped := fun (k : Str) => stripDefaultPort k c.tls != k
+         if unsplit a.1 || unsplit b.1 then "shorter-host-suffix-won-port-not-split"
+         else if stripped a.1 || stripped b.1 then "shorter-host-suffix-won-default-port-key"
+         else "shorter-host-suffix-won"
        | none => "impossible")
     | .pathLength => "shorter-path-won-" ++ kindName c.kind
 
